@@ -22,7 +22,7 @@ func init() {
 
 func runC15(w *World, r *Report) {
 	r.Rule("C15/WRITER-READER", "every fixed name the archive writer emits is a name the loader's classification knows, and both loaders strip the same byte-order mark", 3)
-	r.Rule("C15/VERBATIM", "archive entries carry the caller's name (only separator-normalised) and body unmodified; chart files and templates are written from their Data unmodified under Join(base, Name)", 5)
+	r.Rule("C15/VERBATIM", "archive entries carry the caller's name (only separator-normalised) and body unmodified; chart files and templates are written from their Data unmodified under Join(base, Name)", 4)
 	r.Rule("C15/VALID-FIRST", "nothing is created before the chart validated: Save creates the file only after Validate's ok-edge, the writers check the chart name before the first write", 3)
 	r.Rule("C15/IGNORE", "the directory loader keeps a file only on the not-ignored edge and skips ignored directories entirely; helm package obtains the chart through the loader", 3)
 	r.Rule("C15/CLEANUP", "after the archive file was created, every error return of Save leaves with the removal of the partial archive armed, and the success return with it disarmed", 2)
@@ -145,6 +145,7 @@ func c15Verbatim(w *World, r *Report) {
 	r.Check(okBody, "C15/VERBATIM", "entry-body", w.Pos(wtc.Pos()), "the tar entry body is the caller's byte slice", "the tar entry body is not the caller's byte slice")
 	// in writeTarContents: loops over Templates and Files write Join(base, f.Name), f.Data
 	n := 0
+	coveredLists := map[string]bool{}
 	for _, c := range callInstrs(wt) {
 		f, _ := calleeOf(c.Common())
 		if f == nil || origin(f) != wtc {
@@ -160,6 +161,14 @@ func c15Verbatim(w *World, r *Report) {
 		}
 		fileVal := ld.X.(*ssa.FieldAddr).X
 		n++
+		backSliceIdx(fileVal, func(v ssa.Value) bool {
+			if l3, ok := v.(*ssa.UnOp); ok && l3.Op == token.MUL {
+				if _, t, fld := fieldNameOf(l3.X); t == "Chart" && (fld == "Templates" || fld == "Files") {
+					coveredLists[fld] = true
+				}
+			}
+			return false
+		})
 		// name: filepath.Join(base, <file>.Name) with the same file (or the fixed values file name)
 		okN := false
 		if jc, isC := nm.(*ssa.Call); isC {
@@ -180,8 +189,8 @@ func c15Verbatim(w *World, r *Report) {
 		}
 		r.Check(okN, "C15/VERBATIM", fmt.Sprintf("file-entry#%d", n), w.InstrPos(c), "written as Join(base, file.Name) with the file's Data", "a chart file is not written under its own name with its own data")
 	}
-	if n < 3 {
-		r.Unk("C15/VERBATIM", "file-entries", w.Pos(wt.Pos()), fmt.Sprintf("only %d file-data writes found (values, templates, files expected)", n))
+	if n < 1 || !coveredLists["Templates"] || !coveredLists["Files"] {
+		r.Unk("C15/VERBATIM", "file-entries", w.Pos(wt.Pos()), fmt.Sprintf("%d file-data writes found; templates written: %v, files written: %v (both lists are expected to be written from their entries' Data)", n, coveredLists["Templates"], coveredLists["Files"]))
 	}
 }
 
